@@ -64,6 +64,26 @@ impl SessionCfg {
     }
 }
 
+#[repr(C)]
+struct Timespec {
+    tv_sec: i64,
+    tv_nsec: i64,
+}
+extern "C" {
+    fn clock_gettime(clk_id: i32, tp: *mut Timespec) -> i32;
+}
+
+/// CPU time consumed by this process so far, in microseconds (CLOCK_PROCESS_CPUTIME_ID).
+/// Used to tell a loop that burns CPU from a process that merely was not scheduled.
+pub fn cpu_micros() -> u64 {
+    let mut ts = Timespec { tv_sec: 0, tv_nsec: 0 };
+    let r = unsafe { clock_gettime(2, &mut ts) };
+    if r != 0 {
+        return 0;
+    }
+    ts.tv_sec as u64 * 1_000_000 + ts.tv_nsec as u64 / 1000
+}
+
 pub struct Session {
     pub cfg: SessionCfg,
     pub recs: Vec<CallRec>,
@@ -71,11 +91,12 @@ pub struct Session {
     pub late_applied: bool,
     pub halted: bool,
     api_no: u32,
+    cpu0: u64,
 }
 
 impl Session {
     pub fn new(cfg: SessionCfg, late: Option<(usize, StorageFault)>) -> Self {
-        Session { cfg, recs: Vec::new(), late, late_applied: false, halted: false, api_no: 0 }
+        Session { cfg, recs: Vec::new(), late, late_applied: false, halted: false, api_no: 0, cpu0: cpu_micros() }
     }
 
     fn prepare(&mut self, sim: &SimRef) -> u64 {
@@ -110,7 +131,14 @@ impl Session {
         }
         let t0 = Instant::now();
         let r = guard(f);
-        let micros = t0.elapsed().as_micros() as u64;
+        let mut micros = t0.elapsed().as_micros() as u64;
+        if micros > 200_000 {
+            // slow by the wall clock: only CPU actually burned counts (a loaded machine can
+            // leave a process unscheduled for seconds). Everything else in a session costs
+            // microseconds, so CPU time since the session began bounds this call's CPU time.
+            let cpu = cpu_micros().saturating_sub(self.cpu0);
+            micros = micros.min(cpu);
+        }
         let (ar, site) = if self.cfg.measure_alloc { alloc::disarm() } else { (AllocReport::default(), None) };
         let (ops, bytes, tripped) = {
             let s = sim.borrow();
@@ -141,7 +169,7 @@ impl Session {
 }
 
 pub fn sample_ids(count: u32, extra: &[u32]) -> Vec<u32> {
-    let mut v = vec![0u32, 1, 2, 3, count / 2, count.wrapping_sub(1), count, count.wrapping_add(1), 1 << 31, u32::MAX];
+    let mut v = vec![0u32, 1, 2, 3, count / 2, count.wrapping_sub(1), count, count.wrapping_add(1), count.wrapping_add(2), count.wrapping_add(3), 1 << 31, u32::MAX];
     v.extend_from_slice(extra);
     let mut seen = std::collections::BTreeSet::new();
     v.retain(|x| seen.insert(*x));
